@@ -1,7 +1,7 @@
 (* C07 - The traced schema does not depend on sample order or repetition.
    Model: Trace/Tracer.v (trace, to_field, from_samples), compared with the crate on every run
    (exhaustive leaf pairs x 16 option sets, triples, nested shapes). *)
-From Verif Require Import Tracer Coerce Coerce_proofs CoerceTable CoerceTable_proofs TracerTablesSpec Null_proofs Struct_proofs Project_proofs FlatRecords_proofs Shapes_proofs Nested_order Nested_schema Nested_repeat.
+From Verif Require Import Tracer Coerce Coerce_proofs CoerceTable CoerceTable_proofs TracerTablesSpec Null_proofs Struct_proofs Project_proofs FlatRecords_proofs Shapes_proofs Nested_order Nested_schema Nested_repeat Nested_success.
 Require Import Lia.
 From Coq Require Import Permutation.
 
@@ -286,6 +286,15 @@ Theorem C07_nested_repeat : forall o n d vs t, Hom o n vs -> trace_seq' o d vs (
   exists t2, trace_seq' o d (vs ++ vs) (Ok (TUnknown false)) = Ok t2 /\ teq t t2.
 Proof. exact nested_repeat. Qed.
 
+(* "unless primitives are allowed to coerce to strings, success itself is independent of the order of the whole collection", for
+   nested data: whenever a collection of the class Hom traces, every permutation of it traces (projection: the children of a position
+   that traces, trace; induction on the children; converse: a position traces as soon as its children do, the variant names agree
+   and the depth limit is respected - all of which are order-free) *)
+Theorem C07_nested_success_order_free : forall o, o_to_string o = false -> forall n d vs vs' t,
+  Hom o n vs -> Permutation vs vs' -> trace_seq' o d vs (Ok (TUnknown false)) = Ok t ->
+  exists t', trace_seq' o d vs' (Ok (TUnknown false)) = Ok t'.
+Proof. exact nested_success_order_free. Qed.
+
 (* ... and at the level of schemas: from_samples on nested data (the class Hom) gives, for the same samples in any two orders that both
    succeed, the same schema up to the order of struct fields at every level (sdeq: the same field names, and for every name fields
    that agree in name, nullability, strategy and - recursively - data type).  This is C07_full restricted to the class Hom. *)
@@ -300,6 +309,7 @@ Example C07_nested_schema_example :
                   map sf_name fs1 = [b "id"; b "tags"; b "pos"; b "items"] /\ map sf_name fs2 = [b "tags"; b "id"; b "items"; b "pos"].
 Proof. do 2 eexists. vm_compute. repeat split; reflexivity. Qed.
 
+Print Assumptions C07_nested_success_order_free.
 Print Assumptions C07_map_projection.
 Print Assumptions C07_tuple_projection.
 Print Assumptions C07_union_projection.
